@@ -202,6 +202,20 @@ def input_provenance(repo, tier):
     site(MHTML, "read_mhtml", lambda c: dotted(c.func) == "read_html", "read_html-gets-the-html-part-unmodified",
          sources=("_extract_from_mhtml",), want_atoms=("source _extract_from_mhtml", "param file_like"))
 
+    # the converter never hands the markup itself back as "text" (e.g. from an except-branch fallback): its parameter is
+    # used for nothing but feeding the parser
+    m = loader.module(MSG, repo)
+    fn = m.functions.get("_html_to_text")
+    oid = "C17/msg_email_extractor.py::_html_to_text/call-site#the-markup-itself-is-never-returned-as-text"
+    if fn is None or not fn.args.args:
+        P(oid, False, "_html_to_text missing", MSG)
+    else:
+        param = fn.args.args[0].arg
+        feeds = [c for c in ast.walk(fn) if isinstance(c, ast.Call) and isinstance(c.func, ast.Attribute) and c.func.attr == "feed"]
+        fed = {id(a) for c in feeds for a in c.args}
+        other = sorted(f"line {n.lineno}" for n in ast.walk(fn) if isinstance(n, ast.Name) and n.id == param and id(n) not in fed)
+        P(oid, len(feeds) == 1 and not other, f"`{param}` is also used at {other}" if other else "only use: parser.feed", MSG)
+
     # MSG routing: `if _looks_like_html(B): body_plain = _html_to_text(B)` with B the message body itself
     m = loader.module(MSG, repo)
     fn = m.functions.get("read_msg_format_mail")
@@ -244,7 +258,16 @@ def native_scope(repo, tier):
     import os
     import subprocess
     oid = "C17/replay::native-scope/bounded#removable-element-grammar-through-all-entry-points.BOUNDED"
-    req = {"property": "C17", "obligation": oid, "repo": repo}
+    known = []
+    try:
+        with open(os.path.join(os.path.dirname(os.path.dirname(os.path.abspath(__file__))), "known_findings.json")) as fh:
+            for f in json.load(fh).get("findings", []):
+                w = f.get("witness") or {}
+                if f.get("property") == "C17" and w.get("markup_builder"):
+                    known.append(dict(w["markup_builder"], only=w.get("only")))      # replayed on its own by the known_findings hook
+    except Exception:  # noqa
+        pass
+    req = {"property": "C17", "obligation": oid, "repo": repo, "known_docs": known}
     try:
         p = subprocess.run(["/venv/bin/python", os.path.join(os.path.dirname(os.path.dirname(os.path.abspath(__file__))), "replay", "run.py")],
                            input=json.dumps(req), capture_output=True, text=True, timeout=600, env=dict(os.environ, VERIF_REPO=repo))
